@@ -279,6 +279,9 @@ func localCalls(w *World, ri int, alpha string) []pt.Action {
 		if strings.Contains(alpha, "nest") {
 			shapes = []string{"na", "p"}
 		}
+		if strings.Contains(alpha, "cbatch") {
+			shapes = append(shapes, "em", "eam")
+		}
 		if strings.Contains(alpha, "key1") {
 			// one top-level key only (put a primitive / an object, delete): deep three-party conflicts on it
 			shapes, objs, arrs = []string{"p", "o"}, []string{""}, nil
